@@ -43,6 +43,7 @@ def cases(ctx):
         yield {"kind": "subm8", "dtype": "int8"}
     for dtype in gen.INT_DTYPES:
         yield {"kind": "subm_lattice", "dtype": dtype, "seed": rng.randrange(1 << 30)}
+    yield from default_cases(ctx, rng)
     n = 500 if ctx.tier == "quick" else 6000
     nrow = 40 if ctx.tier == "quick" else 400     # boolean 2-D views with contiguous rows: the domain of the 2-D fast path
     for i in range(n + nrow):
@@ -65,6 +66,28 @@ def cases(ctx):
         yield {"kind": "morph", "dtype": dtype, "shape": shape, "f": f, "g": g, "bshape": list(b.shape),
                "b": [int(v) for v in b.reshape(-1)], "se": kind, "clear": clear,
                "layout": rng.choice(ROW_VIEWS if rowview else LAYOUTS), "glayout": rng.choice(LAYOUTS), "n": rng.choice([1, 1, 2, 3, 7])}
+
+
+def default_cases(ctx, rng):
+    """the default element (Bc=None: the cross of the image's rank) after the caller has scribbled on an element that the
+    public get_structuring_elem handed out earlier in the same process: what open/close/... use may not depend on that"""
+    for i in range(30 if ctx.tier == "quick" else 300):
+        dtype = rng.choice(["bool", "uint8", "uint16", "int32"])
+        nd = rng.choice([1, 2, 2, 3])
+        shape = [rng.randint(2, 6) for _ in range(nd)]
+        N = gen.size(shape)
+        lo, hi = gen.INT_INFO[dtype]
+        base = 0 if dtype == "bool" else (hi // 2 if lo == 0 else 0)
+        f = gen.rand_values(rng, dtype, N) if dtype == "bool" else [base + rng.randint(0, 12) for _ in range(N)]
+        g = gen.rand_values(rng, dtype, N) if dtype == "bool" else [base + rng.randint(0, 12) for _ in range(N)]
+        cross = np.zeros([3] * nd, int)
+        for pos in np.ndindex(*cross.shape):
+            if sum(abs(p - 1) for p in pos) <= 1:
+                cross[pos] = 1
+        yield {"kind": "morph", "dtype": dtype, "shape": shape, "f": f, "g": g, "bshape": [3] * nd,
+               "b": [int(v) for v in cross.reshape(-1)], "se": "default", "clear": dtype != "bool", "default": True,
+               "scribble": rng.choice(["zero", "centre", "ones", None]), "layout": rng.choice(LAYOUTS), "glayout": rng.choice(LAYOUTS),
+               "n": rng.choice([1, 2, 3])}
 
 
 def run_subm_pairs(ctx, dtype, pairs):
@@ -116,6 +139,21 @@ def run_case(ctx, case):
         d.update(kw)
         return Result(False, True, d)
 
+    bq = b0          # the element the model is asked about
+    if case.get("default"):
+        # a caller who obtained the default element from the public helper and changed it
+        for code_ in (None, 1):
+            try:
+                e = mh.get_structuring_elem(f, code_)
+                if case.get("scribble") == "zero":
+                    e[...] = 0
+                elif case.get("scribble") == "centre":
+                    e[tuple([1] * e.ndim)] = 0
+                elif case.get("scribble") == "ones":
+                    e[...] = 1
+            except (ValueError, TypeError):
+                pass
+        b0 = None      # the calls below use the default element
     outs = {}
     for name, call, q in [
         ("open", lambda: mh.open(f, b0), "open %s %s %s" % (code, ef, eb)),
